@@ -199,7 +199,7 @@ def generate(rng, tier):
                     elif scen == "preexisting":
                         existing = [0, 1, 2, 3, 4, 5]
                     cases.append(mk_case(desc, existing, ops, root2, fmt, "matrix:" + sname + ":" + scen))
-    nrand = 500 if tier == "quick" else 9000
+    nrand = 1200 if tier == "quick" else 12000
     for _ in range(nrand):
         cases.append(random_case(rng))
     return cases
@@ -365,9 +365,16 @@ def _walk(cfg, n, chain=()):
                 yield from _walk(item, c, chain)
 
 
-def _own(cfg):
-    k = cfg._Config__keyfile
-    return k.filename if k is not None else None
+def _own(cfg, tbl):
+    """the key file this configuration NAMES: what the history assigned to it (side table keyed by id(), the
+    objects are kept alive), else the class-level key file of its config type, else none.  Deliberately not
+    read from the private Config.__keyfile attribute (a cache there would fool the oracle)."""
+    from cincoconfig.core import ConfigType
+    if id(cfg) in tbl:
+        return tbl[id(cfg)][1]
+    if isinstance(cfg, ConfigType):
+        return type(cfg).__key_filename__ or None
+    return None
 
 
 def _plain(cfg, n):
@@ -425,9 +432,12 @@ def impl(c):
         try:
             schema = _build_schema(c["desc"], paths, [0])
             root = schema()
+            tbl = {}
             for op in c["ops"]:
                 if op[0] == "kf":
-                    _resolve(root, op[1])._key_filename = (paths[op[2]] if op[2] is not None else None)
+                    tgt = _resolve(root, op[1])
+                    tgt._key_filename = (paths[op[2]] if op[2] is not None else None)
+                    tbl[id(tgt)] = (tgt, paths[op[2]] if op[2] is not None else None)
                 elif op[0] == "sec":
                     setattr(_resolve(root, op[1]), op[2], op[3])
                 elif op[0] == "items":
@@ -461,13 +471,12 @@ def impl(c):
                 # nearest ancestor (by containment) naming a key file
                 want = default
                 for a in reversed(chain):
-                    if _own(a) is not None:
-                        want = _own(a)
+                    if _own(a, tbl) is not None:
+                        want = _own(a, tbl)
                         break
                 parent_ok = (cfg._parent is (chain[-2] if len(chain) > 1 else None))
                 st["resolution"].append((used, named, want, parent_ok))
                 kfs.extend([ids.get(used, -1)] * len(n["secs"]))
-            # NB cfg._keyfile on a root without key file stores KeyFile(default) in the root: read `own` before
             st["expected_dump"] = set()
             st["plaintexts"] = []
             for (cfg, n, chain), (used, named, want, _) in zip(nodes, st["resolution"]):
@@ -481,13 +490,12 @@ def impl(c):
             # F34 region, from the real objects
             f34 = False
             for cfg, n, chain in nodes[1:]:
-                cls_kf = type(cfg).__key_filename__ if isinstance(cfg, ConfigType) else None
-                if _own(cfg) != cls_kf:
+                cls_kf = (type(cfg).__key_filename__ or None) if isinstance(cfg, ConfigType) else None
+                if _own(cfg, tbl) != cls_kf:
                     f34 = True
             st["f34"] = f34
-            root_own = _own(root)
-            st["same_root_kf"] = (ids.get(root_own, -1) if root_own is not None else None) == c["root2"] or \
-                                 (root_own == default and c["root2"] is None)
+            root_own = _own(root, tbl)
+            st["same_root_kf"] = (ids.get(root_own, -1) if root_own is not None else None) == c["root2"]
             shape = _shape(root.to_tree())
             st["methods"] = []
 
@@ -505,6 +513,7 @@ def impl(c):
             # ---- new session: new objects, same file system
             before2 = [p for p in paths.values() if os.path.exists(p)]
             root2 = schema(key_filename=paths[c["root2"]]) if c["root2"] is not None else schema()
+            tbl2 = {id(root2): (root2, paths[c["root2"]] if c["root2"] is not None else None)}
             _AUDIT["events"] = []
             try:
                 root2.loads(out, c["fmt"])
@@ -526,8 +535,8 @@ def impl(c):
                 for cfg, n, chain in _walk(root2, c["desc"]):
                     want = default
                     for a in reversed(chain):
-                        if _own(a) is not None:
-                            want = _own(a)
+                        if _own(a, tbl2) is not None:
+                            want = _own(a, tbl2)
                             break
                     if any(cfg._data.get(name) for name, _m in n["secs"]):
                         st["expected_load"].add(want)
